@@ -326,3 +326,24 @@ MANIFEST_TEXT["C06"] = {
     "technique": "runtime monitoring: differential across configurations and query orders, reference oracle, state snapshot",
 }
 NOT_APPLICABLE[:] = [e for e in NOT_APPLICABLE if e["property_id"] not in ("C06",)]
+
+PROPS["C11"] = {
+    "level": "exploration",
+    "rule": "cases = base frameworks of 20-300 arguments (connected sparse graphs with planted symmetric pairs, rings and hubs; unions of small components; chains, rings, ladders, complete bipartite graphs) plus small random ones, 8 sampled arguments each, all DC/DS problems as `crustabri solve` dispatches them (default or a random selectable encoder). Metamorphic relations, no ground truth needed: statuses are equal on (a) a renamed and re-ordered presentation (Aspartix reader / API), (b) permuted and (c) repeated attack lines, (d) the disjoint union with an unrelated component that has a stable extension (unchanged) or has none (under ST everything skeptically, nothing credulously accepted; other semantics unchanged), (e) after that component is removed again through remove_argument (sparse ids); cross-semantics relations on one framework (SE-GR within SE-ID within the returned PR extension, DC-CO = DC-PR, DS-CO = membership in SE-GR, skeptical implies credulous when an extension exists, ST = SST = STG whenever SE-ST finds an extension, ideal implies skeptically preferred); where an exact oracle exists at that size (composition) it is applied too; 10% of the bases also through the binaries on transformed files. A pair in which a query hit the SAT-call cap is skipped and counted inconclusive. Non-trivial: a (base, transformation) pair with at least one compared status; distinct = hash of (graph, transformation).",
+    "assumptions": ["metamorphic relations follow from the definitions (statuses depend only on the attack graph; all seven semantics are decomposable over weakly connected components)", "composition oracle where components are small"],
+    "thresholds": {
+        "quick": {"evaluations": 300000, "distinct_nontrivial": 4000,
+                  "counters": {"status_pairs_compared": 300000, "transformations/component-added-then-removed": 700,
+                               "transformations/union-with-component-without-stable-extension": 700,
+                               "relations_checked/ST-SST-STG-coincide-when-a-stable-extension-exists": 5000,
+                               "relations_checked/no-stable-extension-convention": 500, "relations_checked/SE-ID-within-returned-PR-extension": 700,
+                               "bases/big-conn": 300, "cli_pairs_compared": 200}},
+        "thorough": {"evaluations": 6000000, "distinct_nontrivial": 80000, "counters": {}},
+    },
+}
+MANIFEST_TEXT["C11"] = {
+    "level_text": "Metamorphic monitoring on inputs far beyond exhaustive reference computation: status vectors of a base framework are compared with those of status-preserving transformations of it, and cross-semantics relations are asserted on each framework; this reaches size-dependent index arithmetic (range-variable offsets, component re-indexing) that small-scope oracles cannot.",
+    "design_ref": "DESIGN.md section 5, C11", "level_note": "Trusted: the relations themselves; second-level queries run under a SAT-call cap (skipped pairs are inconclusive).",
+    "technique": "runtime monitoring: metamorphic relations over transformed presentations and disjoint unions, 20-300 arguments",
+}
+NOT_APPLICABLE[:] = [e for e in NOT_APPLICABLE if e["property_id"] not in ("C11",)]
